@@ -7,6 +7,7 @@ pub mod cache;
 pub mod live;
 pub mod flavour;
 pub mod keys;
+pub mod hist;
 
 use std::io::Write;
 
